@@ -364,9 +364,11 @@ def run(ctx):
                 bits = const_eval(c["a"][2])
                 bound = None
                 for a, pol in hirq.guard_atoms(fn, c):
-                    if pol and isinstance(a, dict) and a.get("k") == "bin" and a["op"] == "Lt":
+                    if pol and isinstance(a, dict) and a.get("k") == "bin" and a["op"] in ("Lt", "Le"):
                         bv = const_eval(a["r"])
                         if isinstance(bv, int):
+                            if a["op"] == "Le":
+                                bv += 1      # v <= c  is  v < c + 1
                             bound = bv if bound is None else min(bound, bv)
                 wtab.append((fn, c, const, bits, bound))
         ctx.floor("W3", "write_type_and_value call sites", len(wtab), 11)
